@@ -1,6 +1,7 @@
 package rules
 
 import (
+	"sort"
 	"go/token"
 	"go/types"
 	"strings"
@@ -332,6 +333,26 @@ func c19(c *Ctx) {
 	scope := c.Closure(append(consumers, safe), true, func(f *ssa.Function) bool { return load_FuncPkgPath(f) == PkgUI })
 	c.ruleIOBounds("R-iodata", scope, 1)
 	c.ruleErrNil("R-errnil", scope)
+	// R-unlock: a mutex taken around / near a command run is released on every path out of the function. A lock
+	// left held on the error path blocks the next poll (and every reader of the same object) for ever - beyond
+	// any timeout. The functions that run commands and the other methods of their receiver types are inspected.
+	lockScope := map[*ssa.Function]bool{}
+	for f := range scope {
+		lockScope[f] = true
+	}
+	for _, f := range consumers {
+		if f.Signature.Recv() == nil {
+			continue
+		}
+		if n := ir.NamedOf(f.Signature.Recv().Type()); n != nil {
+			for _, g := range c.P.Funcs {
+				if g.Signature.Recv() != nil && ir.NamedOf(g.Signature.Recv().Type()) == n {
+					lockScope[g] = true
+				}
+			}
+		}
+	}
+	c.ruleUnlock("R-unlock", lockScope)
 	_ = types.Typ
 }
 
@@ -346,4 +367,73 @@ func load_FuncPkgPath(f *ssa.Function) string {
 		return f.Object().Pkg().Path()
 	}
 	return ""
+}
+
+// ruleUnlock: every function of scope that acquires a sync.Mutex / RWMutex releases it on every path to a return
+// (explicitly or by a deferred Unlock): a two-state typestate per acquired mutex, callees followed.
+func (c *Ctx) ruleUnlock(rule string, scope map[*ssa.Function]bool) {
+	tb := ir.NewTB(c.P.IsRepoFunc, c.P.FuncKey)
+	lockOf := func(cc ssa.CallInstruction) (string, int) {
+		switch ir.CallName(cc) {
+		case "(*sync.Mutex).Lock", "(*sync.RWMutex).Lock", "(*sync.RWMutex).RLock":
+			return tb.Of(cc.Common().Args[0], nil).String(), +1
+		case "(*sync.Mutex).Unlock", "(*sync.RWMutex).Unlock", "(*sync.RWMutex).RUnlock":
+			return tb.Of(cc.Common().Args[0], nil).String(), -1
+		}
+		return "", 0
+	}
+	n := 0
+	for _, fn := range c.SortedFuncs(scope) {
+		if len(fn.Blocks) == 0 || load_FuncPkgPath(fn) == PkgUI {
+			continue
+		}
+		locks := map[string]ssa.Instruction{}
+		Calls(fn, func(cc ssa.CallInstruction) {
+			if _, isDefer := cc.(*ssa.Defer); isDefer {
+				return
+			}
+			if name, d := lockOf(cc); d > 0 {
+				if _, seen := locks[name]; !seen {
+					locks[name] = cc
+				}
+			}
+		})
+		var names []string
+		for name := range locks {
+			names = append(names, name)
+		}
+		sort.Strings(names)
+		for _, name := range names {
+			name := name
+			n++
+			spec := ir.TSpec{
+				N: 2,
+				Instr: func(ins ssa.Instruction) []ir.Mask {
+					cc, ok := ins.(ssa.CallInstruction)
+					if !ok {
+						return nil
+					}
+					nm, d := lockOf(cc)
+					if d == 0 || nm != name {
+						return nil
+					}
+					if d > 0 {
+						return ir.AllTo(2, 1)
+					}
+					return ir.AllTo(2, 0)
+				},
+				Callees:  func(call ssa.CallInstruction) []*ssa.Function { return nil },
+				NoReturn: func(ins ssa.Instruction) bool { return c.noReturnCall(ins) },
+			}
+			ts := ir.NewTS(spec)
+			exit := ts.Summary(fn, 0)
+			key := c.FK(fn) + "|" + name
+			if exit.Has(1) {
+				c.R.Bad(rule, key, c.FK(fn), c.P.Pos(locks[name].Pos()), "the mutex "+name+" acquired here is still held on some path to a return of "+c.FK(fn)+": the next caller (the following poll, a reader of the same object) blocks for ever")
+			} else {
+				c.R.Ok(rule, key, c.FK(fn), c.P.Pos(locks[name].Pos()), "released on every path to a return")
+			}
+		}
+	}
+	c.R.Ok(rule, "summary", "(call graph)", "-", sprintf("%d (function, mutex) pairs inspected in %d functions", n, len(scope)))
 }
